@@ -444,6 +444,49 @@ let do_tx line args res =
       end
   | _ -> ()
 
+(* ------------------------------------------------------------ classes tc / kv: consumers, fully scripted PD *)
+let split_hex s = if s = "-" || s = "" then [] else String.split_on_char ',' s
+let do_tc line args res =
+  incr ncases;
+  match args, res with
+  | [mode; causal; _; toms; _; step], [ir; start; regs; ireqmin; pdlog; _; _] ->
+      let start = zh start and regs = List.map zh (split_hex regs) in
+      let inc = zadd (zmul (zh step) two18) (zh "1") in
+      (* predicted PD answers after the start ts: an arithmetic progression *)
+      let script = List.init 64 (fun j -> Some (zadd start (zmul (z_of_int (j + 1)) inc))) in
+      let ms = int_of_string ("0x" ^ toms) in
+      let fuel = nat_of (min 62 (expected_fuel ms)) in
+      let m = (match mode with "1" -> MAsync | "2" -> M1PC | _ -> M2PC) in
+      let ((r, reqmin), calls) = commit_txn true (fun x -> x) m (causal = "1") start regs (zmul (z_of_int ms) (zh "f4240")) fuel script in
+      let ncalls = int_of_nat calls in
+      let pred_log = String.concat "," (List.filteri (fun j _ -> j < ncalls) (List.map (fun x -> match x with Some t -> hz t | None -> "err") script)) in
+      let mstr = (match r with Some t -> "ok " ^ hz t | None -> "err") ^ "\t" ^ hz reqmin ^ "\t" ^ (if ncalls = 0 then "-" else pred_log) in
+      if mstr <> ir ^ "\t" ^ ireqmin ^ "\t" ^ pdlog then mismatch line mstr;
+      bump ("tc:mode" ^ mode ^ ":causal" ^ causal ^ ":" ^ (if ir = "err" then "err" else "ok") ^ ":pdcalls" ^ string_of_int (List.length (split_hex pdlog)));
+      (* oracles on the implementation's outputs *)
+      if ir <> "err" then begin
+        let ts = zh (String.sub ir 3 (String.length ir - 3)) in
+        prop "commit_ts_gt_constraint" (List.for_all (fun x -> x <! ts) regs && (Z0 <! ts)) line "greater than every registered value";
+        if mode <> "0" && List.exists (fun x -> Z0 <! x) regs then begin
+          let rm = zh ireqmin in
+          prop "min_commit_ts_gt_constraint" (List.for_all (fun x -> x <! rm) regs) line ("prewrite carried min_commit_ts " ^ ireqmin);
+          prop "min_commit_ts_from_pd" (List.exists (fun x -> x <> "err" && zeq (zadd (zh x) (zh "1")) rm) (split_hex pdlog)) line ""
+        end
+      end
+  | _ -> ()
+let do_kv line args res =
+  incr ncases;
+  match args, res with
+  | [_op; fails], [ir; expect; icalls] ->
+      let fails = int_of_string fails and calls = int_of_string icalls and expect = zh expect in
+      let answers = List.init (min fails 64) (fun _ -> None) @ [Some expect] in
+      let (r, c) = ts_with_retry (nat_of (max 0 (calls - 1))) answers O in
+      let m = (match r with Some t -> "ok " ^ hz t | None -> "err") ^ "\t" ^ string_of_int (int_of_nat c) in
+      if m <> ir ^ "\t" ^ icalls then mismatch line m;
+      if ir <> "err" then prop "retry_returns_first_answer" (ir = "ok " ^ hz expect && calls = fails + 1) line ""
+      else prop "retry_gives_up_only_after_budget" (calls >= 6 && calls <= fails) line ("calls " ^ icalls)
+  | _ -> ()
+
 let () =
   let nlines = ref 0 in
   read_lines (fun line ->
@@ -456,10 +499,10 @@ let () =
         let verdict = List.nth rest (List.length rest - 1) in
         prop name (verdict = "pass") line ""
     | cls :: rest ->
-        let starts = (match rest with "begin" :: _ -> true | _ -> cls = "cw" || cls = "ar" || cls = "bg" || cls = "st" || cls = "mo" || cls = "iv" || cls = "sl" || cls = "fs" || cls = "rf" || cls = "tx") in
+        let starts = (match rest with "begin" :: _ -> true | _ -> cls = "cw" || cls = "ar" || cls = "bg" || cls = "st" || cls = "mo" || cls = "iv" || cls = "sl" || cls = "fs" || cls = "rf" || cls = "tx" || cls = "tc" || cls = "kv") in
         if starts then cur_case := [];
         cur_case := input_part line :: !cur_case;
-        bump (cls ^ ":" ^ (match rest with op :: _ when cls <> "cw" && cls <> "sl" -> op | _ -> ""));
+        bump (cls ^ ":" ^ (match rest with op :: _ when cls <> "cw" && cls <> "sl" && cls <> "tc" -> op | _ -> ""));
         if res <> [] && cls <> "bg" && cls <> "st" && cls <> "fs" && cls <> "rf" then Hashtbl.replace distinct (cls ^ (String.concat "\t" (List.tl args)) ^ "=>" ^ String.concat "\t" res) ();
         (try
           (match cls with
@@ -469,6 +512,8 @@ let () =
            | "cw" -> do_cw line rest res
            | "lo" -> do_lo line rest res
            | "tx" -> do_tx line rest res
+           | "tc" -> do_tc line rest res
+           | "kv" -> do_kv line rest res
            | "iv" -> do_iv line rest res
            | "sl" -> do_sl line rest res
            | _ -> ())
